@@ -106,7 +106,15 @@ where
     let f = |x: T| num_traits::ToPrimitive::to_f64(&x).unwrap().to_bits();
     let mut out_runs = vec![];
     let only_ends = c["events_filter"].as_str() == Some("stepend");
-    for (n, d) in runs {
+    let reposition: Vec<Option<Vec<T>>> = match c["reposition"].as_array() {
+        Some(a) => a.iter().map(|r| if r.is_null() { None } else { Some(u64s(r).into_iter().map(|b| t(f64::from_bits(b))).collect()) }).collect(),
+        None => vec![],
+    };
+    for (ri, (n, d)) in runs.into_iter().enumerate() {
+        // the chain's position is a public field: a user may restart the chain elsewhere between runs
+        if let Some(Some(x)) = reposition.get(ri) {
+            ch.position = Tensor::<B, 1>::from_data(TensorData::new(x.clone(), [x.len()]), &Default::default());
+        }
         let traced = c["trace"].as_bool().unwrap_or(true);
         let st0 = ch.adapt_state();
         if traced {
